@@ -12,6 +12,10 @@ use serde_json::{json, Value};
 use std::time::Duration;
 
 pub const BASE: &str = "/basepath";
+
+/// request ids are unique per process, so that late threads of an earlier in-process server can
+/// never be mistaken for workers of the current one
+static NEXT_ID: std::sync::atomic::AtomicI32 = std::sync::atomic::AtomicI32::new(1);
 pub const LOOP_THREAD: &str = "iwes-loop";
 
 pub struct Server {
@@ -94,7 +98,7 @@ impl Server {
         Server {
             client,
             thread: Some(thread),
-            next_id: 1,
+            next_id: NEXT_ID.fetch_add(1, std::sync::atomic::Ordering::SeqCst),
             panic_rx: rx,
             loop_panics: vec![],
             server_requests: vec![],
@@ -122,9 +126,14 @@ impl Server {
         self.notify("textDocument/didSave", json!({"textDocument": {"uri": uri_of(key)}, "text": text}))
     }
 
+    /// the id the next request will carry
+    pub fn peek_id(&self) -> RequestId {
+        self.next_id.into()
+    }
+
     pub fn send_request(&mut self, method: &str, params: Value) -> Option<RequestId> {
         let id: RequestId = self.next_id.into();
-        self.next_id += 1;
+        self.next_id = NEXT_ID.fetch_add(1, std::sync::atomic::Ordering::SeqCst);
         let ok = self
             .client
             .sender
